@@ -321,6 +321,8 @@ SUMMARIES.update(
         "asyncio.transports.BaseTransport.is_closing": Summary(NONE, "total"),
         "asyncio.transports.BaseTransport.get_extra_info": Summary(NONE, "total"),
         "asyncio.streams.StreamWriter.is_closing": Summary(NONE, "total"),
+        "builtins.map": Summary(NONE, "lazy: the mapped repository function is analysed at the call (EEA.external)"),
+        "builtins.filter": Summary(NONE, "lazy: the predicate is analysed at the call (EEA.external)"),
         "copy.copy": Summary(NONE, "shallow copy of repo objects"),
         "copy.deepcopy": Summary(_deepcopy_raises, "deepcopy recurses in Python frames (about two per nesting level): data of unbounded depth (Any - e.g. a parsed JSON document, which json.loads accepts far deeper than the interpreter's recursion limit allows here) raises RecursionError; repository objects and flat typed containers do not"),
         "tempfile.mkstemp": Summary([OSE], "file creation"),
